@@ -24,7 +24,33 @@ def default_object(dotted):
     return lib.method_class(dotted)()
 
 
-def execute(call, keep=None):
+def frame_state(obj):
+    """(kind, JSON-able attribute state) of a library frame object, or None"""
+    from pamqp import base
+    if isinstance(obj, header.ContentHeader):
+        p = obj.properties
+        return 'ContentHeader', {
+            'body_size': obj.body_size,
+            'props': {n: copy.deepcopy(getattr(p, n, None)) for n in p.__slots__}}
+    if isinstance(obj, base.Frame):
+        return type(obj).__qualname__, {n: copy.deepcopy(getattr(obj, n, None))
+                                        for n in obj.__slots__}
+    return None
+
+
+def from_state(kind, state):
+    obj = default_object(kind)
+    if kind == 'ContentHeader':
+        obj.body_size = state['body_size']
+        for n, v in state['props'].items():
+            setattr(obj.properties, n, v)
+    else:
+        for n, v in state.items():
+            setattr(obj, n, v)
+    return obj
+
+
+def execute(call, keep=None, target=None):
     """-> canonical, printable result.  `keep`, if given, receives library-created
     objects (for the aliasing / mutation rules of the history)."""
     kind = call[0]
@@ -42,6 +68,12 @@ def execute(call, keep=None):
         if kind == 'marshal':
             case = copy.deepcopy(call[1])
             return repr(('ok', frame.marshal(lib.make_frame(case), case['ch'])))
+        if kind == 'marshal_state':
+            # `target` is the long-lived object of a history; a fresh interpreter
+            # rebuilds an object with the same attribute state
+            obj = target if target is not None else from_state(call[1],
+                                                               copy.deepcopy(call[2]))
+            return repr(('ok', frame.marshal(obj, call[3])))
         if kind == 'unmarshal':
             n, ch, obj = frame.unmarshal(call[1])
             if keep is not None:
